@@ -344,6 +344,18 @@ def corpus():
                      "body": [half("x"), ("if", [(("atom", v("x"), op1, c(k1)), [inc("a", c(1))])], None),
                               ("if", [(("atom", v("x"), op2, c(k2)), [inc("b", v("x"))])], None)]},
                     [{"a": 1}, {"b": 1}, {"a": 1, "b": 1}], f"noninteger-finite:{op1}{k1},{op2}{k2}"))
+    # --- the same atom twice in a disjunction / conjunction of negations over a variable with values {0, 3}: the indicator is a
+    #     POWER of a sum that collapses to a monomial ((1 + (x - 3)/3)**2 = (x/3)**2) when expanded
+    for k, (val, tag) in enumerate([(3, "values-0-3"), (1, "values-0-1"), (2, "values-0-2")]):
+        two_v = ("assign", "f", ("choice", [(c(F(1, 2)), c(0)), (c(F(1, 2)), c(val))]))
+        out.append(({"types": [], "init": [("assign", "f", P.det(c(val))), ("assign", "x", P.det(c(1)))],
+                     "guard": ("or", eq("f", 0), eq("f", 0)),
+                     "body": [inc("x", c(1)), ("assign", "f", P.det(c(0))) if k == 0 else two_v]},
+                    [{"x": 1}, {"x": 1, "f": 1}], f"duplicate-disjunct-guard:{tag}"))
+    out.append(({"types": [], "init": [("assign", "f", P.det(c(0))), ("assign", "x", P.det(c(0))), ("assign", "y", P.det(c(0)))], "guard": ("true",),
+                 "body": [("assign", "f", ("choice", [(c(F(1, 2)), c(0)), (c(F(1, 2)), c(3))])),
+                          ("if", [(("and", ("not", eq("f", 0)), ("not", eq("f", 0))), [inc("x", c(1))])], [inc("y", v("f"))])]},
+                [{"x": 1}, {"y": 1}, {"x": 1, "y": 1}], "duplicate-negated-conjunct"))
     # --- conditioned draw into a variable assigned earlier in the same iteration (default = previous version)
     out.append(({"types": [], "init": [("assign", "f", P.det(c(0))), ("assign", "x", P.det(c(0))), ("assign", "y", P.det(c(0)))],
                  "guard": ("true",),
